@@ -775,7 +775,13 @@ class CompartmentalSystem(Statement):
         for u, v, rate in cb._g.edges.data('rate'):
             rate_sub = rate.subs(substitutions)
             cb._g.edges[u, v]['rate'] = rate_sub
-        mapping = {comp: comp.subs(substitutions) for comp in _comps(self._g)}
+        # NOTE: Iterate in graph order, not over a set: the order of the mapping decides the
+        # node order of the relabelled graph (and hence to_dict and the model hash)
+        mapping = {
+            comp: comp.subs(substitutions)
+            for comp in self._g.nodes
+            if not isinstance(comp, Output)
+        }
         nx.relabel_nodes(cb._g, mapping, copy=False)
         return CompartmentalSystem(cb)
 
